@@ -108,7 +108,7 @@ def parse(path):
             cur_item = Item(mm.group(1), mm.group(2), opts)
             cur_item.line = ln
             unit.entries.append(cur_item)
-        elif d in ('sig', 'end'):
+        elif d in ('sig', 'end', 'begin'):
             cur_kind, cur_arg = d, None
         elif d in ('loop', 'pre', 'top', 'bot', 'post', 'closure'):
             cur_kind, cur_arg = d, int(rest)
